@@ -357,3 +357,32 @@ impl VWaitGroup {
     self.0.get_count()
   }
 }
+
+// --- LoadBalancer ---------------------------------------------------------------------------------
+
+pub struct VLoadBalancer(crate::socket::patterns::load_balancer::LoadBalancer);
+
+impl VLoadBalancer {
+  pub fn new() -> Self {
+    Self(crate::socket::patterns::load_balancer::LoadBalancer::new())
+  }
+  /// Adds a peer backed by the crate's `DummyConnection`.
+  pub fn add_connection(&self, endpoint_uri: &str) {
+    self.0.add_connection(
+      endpoint_uri.to_string(),
+      Arc::new(crate::socket::connection_iface::DummyConnection),
+    )
+  }
+  pub fn remove_connection(&self, endpoint_uri: &str) {
+    self.0.remove_connection(endpoint_uri)
+  }
+  pub fn next_uri(&self) -> Option<String> {
+    self.0.get_next_connection().map(|p| p.uri.clone())
+  }
+  pub fn connection_count(&self) -> usize {
+    self.0.connection_count()
+  }
+  pub async fn wait_for_connection(&self) -> Result<(), ZmqError> {
+    self.0.wait_for_connection().await
+  }
+}
